@@ -207,8 +207,73 @@ func init() {
 			g.addCase("emit", f...)
 			kinds["arity-near-miss"]++
 		}
+		// near misses in which a call without results stands where a value is required
+		for _, use := range voidValueUses {
+			for _, wrap := range []string{"%s", "func body0() {\n%s}\nbody0()\n"} {
+				src := voidPrelude + fmt.Sprintf(wrap, use)
+				f := progFields("main.tsh", map[string]string{"main.tsh": src}, false)
+				g.addCase("parse", f...)
+				g.addCase("emit", f...)
+				kinds["no-value-near-miss"]++
+			}
+		}
 		g.meta["fuzz_kinds"] = kinds
 	}
+}
+
+const voidPrelude = "func nv() {\n\tprint(\"nv\")\n}\nfunc id(n int) int {\n\treturn n\n}\n"
+
+var voidValueUses = []string{
+	"@echo(nv())\n",
+	"@echo(\"a\", nv())\n",
+	"@echo(\"a\") | @cat(nv())\n",
+	"o, e, c := @echo(nv())\nprint(o, e, c)\n",
+	"switch nv() {\ncase nv():\n\tprint(1)\n}\n",
+	"switch nv() {\ncase 1:\n\tprint(1)\n}\n",
+	"switch 1 {\ncase nv():\n\tprint(1)\n}\n",
+	"switch {\ncase nv():\n\tprint(1)\n}\n",
+	"x := nv()\nprint(x)\n",
+	"var x int = nv()\nprint(x)\n",
+	"x := 1\nx = nv()\nprint(x)\n",
+	"x := 1\nx += nv()\nprint(x)\n",
+	"a, b := nv(), 1\nprint(a, b)\n",
+	"a, b := 1, nv()\nprint(a, b)\n",
+	"print(nv())\n",
+	"print(1, nv())\n",
+	"print(nv() + 1)\n",
+	"print(1 - nv())\n",
+	"print(nv() == nv())\n",
+	"print(nv() != 1)\n",
+	"print(nv() < nv())\n",
+	"print(!nv())\n",
+	"print(nv() && true)\n",
+	"print(true || nv())\n",
+	"print((nv()))\n",
+	"print(id(nv()))\n",
+	"print(itoa(nv()))\n",
+	"print(len(nv()))\n",
+	"if nv() {\n\tprint(1)\n}\n",
+	"if false {\n} else if nv() {\n\tprint(1)\n}\n",
+	"for nv() {\n\tbreak\n}\n",
+	"for i := 0; nv(); i++ {\n\tbreak\n}\n",
+	"for i := nv(); i < 1; i++ {\n\tbreak\n}\n",
+	"for i, x := range nv() {\n\tprint(i, x)\n}\n",
+	"xs := []int{nv()}\nprint(len(xs))\n",
+	"xs := []int{1}\nprint(xs[nv()])\n",
+	"xs := []int{1}\nxs[nv()] = 1\n",
+	"xs := []int{1}\nxs[0] = nv()\n",
+	"xs := []int{1}\nxs = append(xs, nv())\n",
+	"xs := []int{1}\nprint(copy(xs, nv()))\n",
+	"s := \"abc\"\nprint(s[nv():2])\n",
+	"s := \"abc\"\nprint(s[0:nv()])\n",
+	"s := \"abc\"\nprint(s + nv())\n",
+	"write(nv(), \"d\")\n",
+	"write(\"p\", nv())\n",
+	"write(\"p\", \"d\", nv())\n",
+	"print(read(nv()))\n",
+	"print(exists(nv()))\n",
+	"q := input(nv())\nprint(q)\n",
+	"panic(nv())\n",
 }
 
 const arityPrelude = "func one(n int) int {\n\treturn n * 2\n}\nfunc none() int {\n\treturn 7\n}\nfunc two(a int, b string) (int, string) {\n\treturn a, b\n}\nfunc void(a int) {\n\tprint(a)\n}\n"
